@@ -261,7 +261,7 @@ def _sed(ctx, case, rec):
                     rec.cls('below-refused')
                 continue
             if r is None:
-                if (form == 'pc' or tab_unit != u.au) and n_ap > 1 and min(abs(x - ap[0]) for x in req) < 1e-12 * ap[0] and 'small' in str(exc):          # a knot request one ulp below the table after a unit round trip
+                if (form == 'pc' or tab_unit != u.au) and n_ap > 1 and min(abs(x - ap[0]) for x in req) < 1e-12 * ap[0]:          # a knot request one ulp below the table after a unit round trip
                     rec.notes['conformant-refusal-within-4ulp-of-smallest'] += 1
                     continue
                 rec.violation('sed|exception|%s' % form, sub, {'type': type(exc).__name__, 'msg': str(exc)[:200], 'requested_au': req, 'table_au': ap})
